@@ -308,6 +308,7 @@ def i7(ctx):
         raise mir.AnchorMissing("lookup_rec_expr / EGraph::add_expr")
     lr, ae = lr[0], ae[0]
     for b, fin, what in ((lr, "lookup", "lookup_rec_expr"), (ae, "add", "add_expr")):
+        b = C.unwrap_delegation(crate, b)       # `add_expr(re) = add_expr_with(re, Semantic)`: look at the worker
         rec = [c for c in b.calls if c.callee and c.callee.target == b.id and not b.blocks[c.bb]["cleanup"]]
         last = [c for c in b.calls if c.callee and c.callee.name == fin and c.callee.target != b.id and not b.blocks[c.bb]["cleanup"]]
         ctx.check(len(rec) == 1 and len(last) == 1, "shape:" + what, "%s recurses on the children and finishes with %s(node)" % (what, fin), "%s no longer has one recursive call and one final %s" % (what, fin), where_of(b))
